@@ -41,6 +41,7 @@ def work_1d(item):
     symx.set_bv(None)
     breaks = breaks_family(family, ncells)
     uf = (path == 'cu')
+    quad_first = (dtype == 'float' and (ncells + degree) % 2 == 0)
     st = {}
 
     def body(ctx):
@@ -49,6 +50,8 @@ def work_1d(item):
         sp = m['spl'].Spline1D(basis)
         n = basis.nbasis
         u = sym_data(n)
+        if quad_first:
+            interp.get_quadrature_coefficients()          # history: the weights were requested from this interpolator before
         interp.compute_interpolant(u, sp)
         pts = list(basis.greville)
         vals = [sp.eval(p) for p in pts]
@@ -83,6 +86,8 @@ def work_1d(item):
             it = m['si'].SplineInterpolator1D(fb, dtype=complex if dtype == 'complex' else float)
             sp = m['spl'].Spline1D(fb, dtype=complex if dtype == 'complex' else float)
             ug = np.array([float(v) for v in uvals], dtype=complex if dtype == 'complex' else float)
+            if quad_first:
+                it.get_quadrature_coefficients()
             it.compute_interpolant(ug, sp)
             kept = sp.coeffs.copy()
             it.compute_interpolant(np.zeros_like(ug), sp)
@@ -432,6 +437,46 @@ CANARIES = [
 ]
 
 
+def dtype_item(item):
+    """concrete part (nothing symbolic): the same data handed over as an integer-typed matrix / vector and as float64 must give
+    the same interpolant (the library may not let the caller's dtype decide the precision of its intermediate results)"""
+    (d1, per1, fam1, n1), (d2, per2, fam2, n2), path = item
+    res = H.worker_result()
+    m = numenv.mods()
+    numenv.disable()
+    res['obligations'] += 1
+    try:
+        b1, b2 = breaks_family(fam1, n1), breaks_family(fam2, n2)
+        B1, B2 = float_space(m, d1, per1, b1, path == 'cu'), float_space(m, d2, per2, b2, path == 'cu')
+        rng = np.random.RandomState(3)
+        Ui = rng.randint(-9, 10, size=(B1.nbasis, B2.nbasis))
+        outs = []
+        for U in (Ui.astype(float), Ui):
+            it = m['si'].SplineInterpolator2D(B1, B2)
+            sp = m['spl'].Spline2D(B1, B2)
+            it.compute_interpolant(U, sp)
+            outs.append(np.array(sp.coeffs, dtype=float).copy())
+        it1 = m['si'].SplineInterpolator1D(B1)
+        o1 = []
+        for u in (Ui[:, 0].astype(float), Ui[:, 0]):
+            s1 = m['spl'].Spline1D(B1)
+            it1.compute_interpolant(u, s1)
+            o1.append(np.array(s1.coeffs, dtype=float).copy())
+        dev = max(float(np.max(np.abs(outs[0] - outs[1]))), float(np.max(np.abs(o1[0] - o1[1]))))
+        if dev > 1e-9:
+            res['violations'].append(('interp:dtype', 'integer-typed data give coefficients that differ by %.3g from those of the same data as float64 %r' % (dev, item),
+                                      dict(kind='dtype', item=str(item))))
+        else:
+            res['discharged'] += 1
+            res['nontrivial'].append('dtype|%r' % (item,))
+    except Exception as e:
+        res['violations'].append(('interp:dtype', 'integer-typed data: %s: %s %r' % (type(e).__name__, str(e)[:150], item), dict(kind='dtype', item=str(item))))
+    finally:
+        numenv.enable()
+        numenv.disable()
+    return res
+
+
 CANARY_COMPLEX = ('complex interpolator solves with the real routine', 'si', [("                self._solveFunc = zgbtrs\n", "                self._solveFunc = dgbtrs\n")])
 
 
@@ -511,6 +556,9 @@ def main():
             continue
         run.merge(r)
     run.sections['complex_history_configs'] = len(cc) - 1
+    for it_ in [((3, True, 'uniform', 4), (3, False, 'uniform', 2), 'cu'), ((2, True, 'graded', 3), (3, False, 'irregular', 2), 'nu'),
+                ((2, False, 'irregular', 2), (3, True, 'graded', 4), 'nu')]:
+        run.merge(dtype_item(it_))
     for cn in CANARIES + [CANARY_COMPLEX]:
         hit = caught.get(cn[0], False)
         run.canaries.append(dict(name=cn[0], detected=hit))
